@@ -29,6 +29,10 @@ def dag_sample(tag):
     return [{"a": {"x": {"k": 1, "j": tag}}, "b": {"y": {"k": 2, "j": tag}}, "z": z} for z in ("u", "v", "w")]
 
 
+def conv_sample(tag):
+    return [{"a": {"x": {"k": "1", "j": tag}}, "num": "1", "when": "2.5", "n": tag}]
+
+
 def tree_sample(tag):
     return [{"a": {"x": {"k": 1, "j": tag}}, "n": tag}]
 
@@ -43,6 +47,10 @@ JOBS = {
     # re-render from the registry of the previous successful j1 of the same history (other framework, other layout)
     "r1": dict(root="Alpha", samples=dag_sample("p"), fw="attrs", layout="flat", kw={}, fail_at=0, reuse="j1"),
     "r2": dict(root="Alpha", samples=dag_sample("p"), fw="pydantic", layout="nested", kw={}, fail_at=0, reuse="j1"),
+    # string converters on: attrs / dataclasses build their decorator arguments on top of the base generator's
+    "c1": dict(root="Conv", samples=conv_sample("c"), fw="attrs", layout="flat", kw={"post_init_converters": True}, fail_at=0),
+    "c2": dict(root="Plain", samples=conv_sample("d"), fw="base", layout="flat", kw={"post_init_converters": True}, fail_at=0),
+    "c3": dict(root="Dc", samples=conv_sample("e"), fw="dataclasses", layout="nested", kw={"post_init_converters": True, "meta": True}, fail_at=0),
 }
 
 
@@ -271,7 +279,7 @@ CHECK_DEADLOCK FALSE
 
 
 def kcfg(K, F):
-    return "\n".join(["  K%s = %d" % (j, K[j]) for j in ("j1", "j2", "j3", "f1", "f2", "r1", "r2")] + ["  Ff1 = %d" % F["f1"], "  Ff2 = %d" % F["f2"]])
+    return "\n".join(["  K%s = %d" % (j, K[j]) for j in ("j1", "j2", "j3", "f1", "f2", "r1", "r2", "c1", "c2", "c3")] + ["  Ff1 = %d" % F["f1"], "  Ff2 = %d" % F["f2"]])
 
 
 def mc_session(chk, mode, K, F, emit=True, workers=None):
